@@ -139,6 +139,12 @@ func runERC20Lock(ctx *action.Context, tx action.RawTx) (bool, action.Response) 
 	if err != nil {
 		return helpers.LogAndReturnFalse(ctx.Logger, gov.ErrGetEthOptions, erc20lock.Tags(), err)
 	}
+	// a contract-creation transaction has no recipient
+	if ethTx.To() == nil {
+		return false, action.Response{
+			Log: "the ethereum transaction has no recipient",
+		}
+	}
 	token, err := ethchaindriver.GetToken(ethOptions.TokenList, *ethTx.To())
 	if err != nil {
 		return false, action.Response{
